@@ -209,6 +209,7 @@ func runC01(c *core.Ctx) {
 			e.reuseWithParameters(&caseNo)
 			e.duplicateMembers(&caseNo)
 			e.duplicateInnerMembers(&caseNo)
+			e.alteredAfterVerification(&caseNo)
 		}
 	}
 }
@@ -265,6 +266,78 @@ func (e *c01Env) reuseWithParameters(caseNo *int) {
 		break
 	}
 	c.End(id)
+}
+
+// alteredAfterVerification: an authentic metadata object is verified (accepted), then its content is
+// replaced in memory - on the object itself, or on a copy of the object - and verified again: what a
+// verification learnt about an object must not outlive the content it learnt it about.
+func (e *c01Env) alteredAfterVerification(caseNo *int) {
+	c := e.c
+	signer := e.keys[0]
+	b, _ := json.Marshal(e.chain.Layout)
+	var forged intoto.Layout
+	json.Unmarshal(b, &forged)
+	forged.Inspect[0].Run = []string{e.chain.Helper, "touch", filepath.Join(e.chain.MarkerDir, "EVIL")}
+	for _, how := range []string{"content replaced on the verified object", "content replaced on a copy of the verified object", "content replaced through SetPayload"} {
+		*caseNo++
+		id := fmt.Sprintf("altered-after-verification/%s/%s", e.tag(), how)
+		if !c.Mine(*caseNo) || !c.Want(id) {
+			continue
+		}
+		path, _, err := e.chain.WriteLayout("verified-then-altered.layout", signer)
+		if err != nil {
+			continue
+		}
+		md, err := intoto.LoadMetadata(path)
+		if err != nil {
+			continue
+		}
+		c.Begin(id)
+		first := e.verify(md, gen.KeyMap(signer))
+		c.Eval(1)
+		if !first.Accepted() {
+			c.Violation("authentic layout rejected", id, map[string]any{"wrapper_entry": e.tag(), "error": errStr(first.Err)})
+			c.End(id)
+			continue
+		}
+		c.Obs("authentic_accepted", 1)
+		var altered intoto.Metadata
+		switch mb := md.(type) {
+		case *intoto.Metablock:
+			switch how {
+			case "content replaced on the verified object":
+				mb.Signed = forged
+				altered = mb
+			case "content replaced on a copy of the verified object":
+				cp := *mb
+				cp.Signed = forged
+				altered = &cp
+			}
+		case *intoto.Envelope:
+			if how == "content replaced through SetPayload" {
+				if mb.SetPayload(forged) == nil {
+					altered = mb
+				}
+			}
+		}
+		if altered == nil {
+			c.End(id)
+			continue
+		}
+		obs := e.verify(altered, gen.KeyMap(signer))
+		c.Eval(1)
+		markers := e.chain.Markers()
+		detail := map[string]any{"wrapper_entry": e.tag(), "how": how, "markers": markers, "error": errStr(obs.Err)}
+		reportTrace(c, id, obs, detail)
+		c.Class("altered-after-verification", e.tag(), how)
+		c.Obs("not_authentic_cases", 1)
+		if obs.Accepted() || contains(markers, "EVIL") {
+			c.Violation("content that was replaced in memory after an accepted verification is enforced under the signature of the earlier content ("+how+")", id, detail)
+		} else {
+			c.Obs("not_authentic_rejected", 1)
+		}
+		c.End(id)
+	}
 }
 
 // duplicateMembers: a file that carries a second copy of a member under another spelling of its
